@@ -138,6 +138,8 @@ type Machine struct {
 	rpc       map[*Value]*rpcServer
 	httpS     *httpSide
 	protoMsgs []protoMsg
+	hashes    map[string]Array
+	topicValidator Value
 	pinned    []ModelVal
 	coros     []*coro
 	curCoro   *coro
@@ -847,10 +849,13 @@ func (m *Machine) visitInstr(fr *frame, instr ssa.Instruction) continuation {
 
 	case *ssa.Defer:
 		fn, args := m.prepareCall(fr, &instr.Call)
+		target := fr
 		if instr.DeferStack != nil {
-			m.unsupported("defer with explicit DeferStack (range-over-func)")
+			if t, ok := fr.get(instr.DeferStack).(*frame); ok && t != nil {
+				target = t
+			}
 		}
-		fr.defers = append(fr.defers, &deferred{fn: fn, args: args, pos: instr.Pos()})
+		target.defers = append(target.defers, &deferred{fn: fn, args: args, pos: instr.Pos()})
 
 	case *ssa.Go:
 		fn, args := m.prepareCall(fr, &instr.Call)
